@@ -142,6 +142,14 @@ func stuckStack(gid int64) string {
 // allocStack runs f once more and returns the call stack (frames of core, innermost first) that allocated the most
 // during the run, from the runtime's allocation profile (allocations above the sampling rate are always recorded).
 func (g *guard) allocStack(f func() error) string {
+	s, _ := g.allocStackG(f)
+	return s
+}
+
+// allocStackG also reports whether the allocation is made by encoding/json itself while it builds the value (slice
+// growth, zeroed elements for "null"): such allocations are bounded by the size of the Go type per array element and
+// are a property of the Go JSON decoder, not of core's unmarshallers.
+func (g *guard) allocStackG(f func() error) (stack string, genericJSON bool) {
 	snap := func() map[[32]uintptr]int64 {
 		runtime.GC()
 		runtime.GC()
@@ -159,7 +167,7 @@ func (g *guard) allocStack(f func() error) string {
 	}
 	before := snap()
 	if o := g.run(f); o.bad() {
-		return ""
+		return "", false
 	}
 	after := snap()
 	var best [32]uintptr
@@ -170,7 +178,7 @@ func (g *guard) allocStack(f func() error) string {
 		}
 	}
 	if bestN == 0 {
-		return ""
+		return "", false
 	}
 	n := 0
 	for n < len(best) && best[n] != 0 {
@@ -182,12 +190,14 @@ func (g *guard) allocStack(f func() error) string {
 		fr, more := frames.Next()
 		if strings.HasPrefix(fr.Function, "go.sia.tech/core/") {
 			lines = append(lines, fr.Function+"(...)", fmt.Sprintf("%s:%d", fr.File, fr.Line))
+		} else if len(lines) == 0 && strings.HasPrefix(fr.Function, "encoding/json.") {
+			genericJSON = true // encoding/json allocates before any function of core is on the path
 		}
 		if !more {
 			break
 		}
 	}
-	return strings.Join(lines, "\n")
+	return strings.Join(lines, "\n"), genericJSON
 }
 
 // allocBound is the allocation a case of the given input length may cause: 64 x input + 1 MiB.
